@@ -19,7 +19,7 @@ from .. import core, tlc, traceval
 BAD_KINDS = ["pyobject", "pyapply", "pynew", "pyname", "pymodule", "pytuple", "pycomplex", "pybytes", "pystr", "pyint", "pylist", "pydict", "pyunicode", "pylong", "pyfloat", "pybool", "pynone", "unregistered", "unregistered_dotted", "unregistered_prefixed"]
 NAMED = ["pyobject", "pyapply", "pynew", "pyname", "pymodule", "unregistered_dotted"]
 TARGETS = ["sentinel", "canary_class", "os_system", "unimported", "plugin_class"]
-POSITIONS = ["pipeline_item", "lazy_arg", "lazy_nested", "lazyfn_nested", "eager_arg", "type_arg", "logging", "root", "mapkey", "section_value", "merge_value", "tagkey", "second_document", "dupkey", "merge_shadowed", "root_tagged", "dot_section", "last_seq_arg"]
+POSITIONS = ["pipeline_item", "lazy_arg", "lazy_nested", "lazyfn_nested", "eager_arg", "type_arg", "logging", "root", "mapkey", "section_value", "merge_value", "tagkey", "second_document", "dupkey", "merge_shadowed", "root_tagged", "dot_section", "last_seq_arg", "late_section"]
 INVARIANTS = ["OnlyRegistered", "BadIsRejected"]
 
 
@@ -85,6 +85,11 @@ def bad_yaml(node, n, marker):
 
 
 def render(doc, n, marker):
+    """abstract document -> YAML text"""
+    return render_(doc, n, marker)
+
+
+def render_(doc, n, marker):
     """abstract document (list of nodes) -> YAML text"""
     bads = [d for d in doc if d["kind"] != "plugin"]
     if not bads:
@@ -127,6 +132,10 @@ def render(doc, n, marker):
         elif p == "last_seq_arg":
             # the last positional argument of a registered tag written in sequence form
             sections["pipeline"].insert(0, "!VCtrl [1, %s]" % y if j % 2 == 0 else "!VEager [%s]" % y)
+        elif p == "late_section":
+            # the last section of a LARGE file: more than a mebibyte of comments lies between
+            # the pipeline and it (a configuration is read to its end)
+            sections["_late"] = y
         elif p == "dupkey":
             # a duplicate key: the earlier value is shadowed by the later one, but it is there
             sections["__config_test"]["d%d" % j] = "{k: %s, k: 1}" % y
@@ -149,6 +158,8 @@ def render(doc, n, marker):
     lines.append("pipeline:")
     for it in sections["pipeline"]:
         lines.append("  - " + it)
+    if sections.get("_late"):
+        lines.append(("# " + "." * 126 + "\n") * (8400 if n % 2 == 0 else 3) + "zz_late: " + sections["_late"])
     if sections.get("_second"):
         # (a first document without any registered tag, so that nothing but the bad tag of
         #  the second document decides the outcome)
